@@ -342,6 +342,18 @@ func GenCase(rng *rand.Rand) *Case {
 		}
 		if len(cands) > 0 {
 			c.Held = []uint32{cands[rng.Intn(len(cands))]}
+			// several addresses under the key of a pod without ranges (its predecessors requested single addresses):
+			// filter and bind must both use the lowest one
+			for len(c.Held) < 3 && rng.Intn(100) < 45 {
+				x := cands[rng.Intn(len(cands))]
+				dup := false
+				for _, y := range c.Held {
+					dup = dup || x == y
+				}
+				if !dup {
+					c.Held = append(c.Held, x)
+				}
+			}
 		}
 	}
 	if len(c.Held) > 3 {
